@@ -12,5 +12,5 @@ Theorem C13_injective_len3 : forall r a b,
 Proof. apply dict_injective. vm_compute. reflexivity. Qed.
 Print Assumptions C13_injective_len3.
 
-Example C13_dict3_size : List.length (words_upto alphabet40 3) = 65641.
+Example C13_dict3_size : N.of_nat (List.length (words_upto alphabet40 3)) = 65641%N.
 Proof. vm_compute. reflexivity. Qed.
